@@ -16,7 +16,11 @@ VERIF = os.path.dirname(os.path.dirname(os.path.abspath(__file__)))
 
 
 def sh(cmd, **kw):
-    return subprocess.run(cmd, shell=isinstance(cmd, str), capture_output=True, text=True, **kw)
+    kw.setdefault("timeout", 1800)
+    try:
+        return subprocess.run(cmd, shell=isinstance(cmd, str), capture_output=True, text=True, **kw)
+    except subprocess.TimeoutExpired as e:
+        return subprocess.CompletedProcess(cmd, 124, stdout=str(e.stdout or ""), stderr="TIMEOUT after %ss" % kw["timeout"])
 
 
 def main() -> int:
@@ -45,7 +49,7 @@ def main() -> int:
             return 2
         env = dict(os.environ, PYTHONPATH=os.path.join(wt, "src"), PYTHONDONTWRITEBYTECODE="1")
         if not a.skip_confirm:
-            d0 = sh(["/venv/bin/python", "-B", os.path.join(dst, "demo.py")], env=env, cwd="/dev/shm")
+            d0 = sh(["/venv/bin/python", "-B", os.path.join(dst, "demo.py")], env=env, cwd="/dev/shm", timeout=300)
             ran["demo_pristine_rc"] = d0.returncode
         ap_ = sh(["git", "-C", wt, "apply", os.path.join(dst, "patch.diff")])
         if ap_.returncode:
@@ -54,7 +58,7 @@ def main() -> int:
             return 2
         ran["applies"] = True
         if not a.skip_confirm:
-            d1 = sh(["/venv/bin/python", "-B", os.path.join(dst, "demo.py")], env=env, cwd="/dev/shm")
+            d1 = sh(["/venv/bin/python", "-B", os.path.join(dst, "demo.py")], env=env, cwd="/dev/shm", timeout=300)
             ran["demo_patched_rc"] = d1.returncode
             ran["demo_patched_tail"] = (d1.stdout + d1.stderr)[-400:]
             if a.tests:
